@@ -142,6 +142,17 @@ cfg_if! {
     }
 }
 
+/// Verification hook: lets a test harness make CPU feature detection report "no AES intrinsics".
+#[cfg(block_ciphers_verif)]
+pub mod verif {
+    use core::sync::atomic::{AtomicBool, Ordering};
+    pub(crate) static FORCE_OFF: AtomicBool = AtomicBool::new(false);
+    /// Force (or stop forcing) the software fallback for instances constructed from now on.
+    pub fn force_intrinsics_off(off: bool) {
+        FORCE_OFF.store(off, Ordering::Relaxed)
+    }
+}
+
 pub use cipher;
 use cipher::{array::Array, consts::U16, crypto_common::WeakKeyError};
 
